@@ -372,6 +372,7 @@ def observe_table(t, plan) -> dict:
     if "row" in plan:
         o["rowv"] = norm(t.get_row_values(plan["row"]))
     o["styles"] = [[c.style for c in row] for row in t.get_cells()]
+    o["colstyles"] = [c.style for c in t.get_columns()]
     return o
 
 
@@ -405,6 +406,7 @@ def observe_grid(g: Grid, plan) -> dict:
     if "row" in plan:
         o["rowv"] = norm(g.row_values_padded(plan["row"]))
     o["styles"] = g.styles()
+    o["colstyles"] = [c[0] for c in g.cols]
     return o
 
 
@@ -493,16 +495,19 @@ def apply_sut(sut: TableSUT, op, aux):
         t.set_value(coord_of(op["c"]), op["v"], style=op.get("s"))
     elif n == "set_cell":
         cell = mk_cell(op["cell"])
+        aux["arg"] = cell
         t.set_cell(coord_of(op["c"]), cell, clone=op.get("clone", True))
         if again:
             t.set_cell(coord_of(again["c"]), cell)
     elif n == "insert_cell":
         cell = mk_cell(op["cell"])
+        aux["arg"] = cell
         t.insert_cell(coord_of(op["c"]), cell, clone=op.get("clone", True))
         if again:
             t.insert_cell(coord_of(again["c"]), cell)
     elif n == "append_cell":
         cell = mk_cell(op["cell"])
+        aux["arg"] = cell
         t.append_cell(yarg(op), cell, clone=op.get("clone", True))
         if again:
             t.append_cell(again["y"], cell)
@@ -510,16 +515,19 @@ def apply_sut(sut: TableSUT, op, aux):
         t.delete_cell(coord_of(op["c"]))
     elif n == "set_row":
         row = mk_row(op["row"]) if op["row"] is not None else None
+        aux["arg"] = row
         t.set_row(yarg(op), row, clone=op.get("clone", True))
         if again:
             t.set_row(again["y"], row)
     elif n == "insert_row":
         row = mk_row(op["row"]) if op["row"] is not None else None
+        aux["arg"] = row
         t.insert_row(yarg(op), row, clone=op.get("clone", True))
         if again:
             t.insert_row(again["y"], row)
     elif n == "append_row":
         row = mk_row(op["row"]) if op["row"] is not None else None
+        aux["arg"] = row
         t.append_row(row, clone=op.get("clone", True))
         if again:
             t.append_row(row)
@@ -551,14 +559,25 @@ def apply_sut(sut: TableSUT, op, aux):
         t.set_column_values(xarg(op), op["values"])
     elif n == "set_column_cells":
         t.set_column_cells(xarg(op), [mk_cell(c) for c in op["cells"]])
-    elif n == "insert_column":
-        t.insert_column(xarg(op), mk_col(op["col"]))
-    elif n == "append_column":
-        t.append_column(mk_col(op["col"]))
+    elif n in ("insert_column", "append_column", "set_column"):
+        col = mk_col(op["col"])
+        aux["arg"] = col
+        if n == "insert_column":
+            t.insert_column(xarg(op), col)
+            if again:
+                t.insert_column(again["x"], col)
+        elif n == "append_column":
+            t.append_column(col)
+            if again:
+                t.append_column(col)
+        else:
+            t.set_column(xarg(op), col)
+            if again:
+                t.set_column(again["x"], col)
+        if op.get("touch_arg") and col is not None:
+            col.style = "late_style"  # the caller goes on using ITS object: the table holds a copy
     elif n == "delete_column":
         t.delete_column(xarg(op))
-    elif n == "set_column":
-        t.set_column(xarg(op), mk_col(op["col"]))
     elif n == "clear":
         t.clear()
     elif n == "row_edit":
@@ -649,6 +668,31 @@ def apply_sut(sut: TableSUT, op, aux):
         t.get_cell(coord_of(op["c"]), clone=False).repeated = op["k"]
     else:
         raise ValueError(f"unknown op {n}")
+
+
+def reapply_with_arg(t, op, arg):
+    """the call of `op` once more, on table `t`, with the argument object `arg` of the first call"""
+    n = op["op"]
+    if n == "set_cell":
+        t.set_cell(coord_of(op["c"]), arg)
+    elif n == "insert_cell":
+        t.insert_cell(coord_of(op["c"]), arg)
+    elif n == "append_cell":
+        t.append_cell(yarg(op), arg)
+    elif n == "set_row":
+        t.set_row(yarg(op), arg)
+    elif n == "insert_row":
+        t.insert_row(yarg(op), arg)
+    elif n == "append_row":
+        t.append_row(arg)
+    elif n == "set_column":
+        t.set_column(xarg(op), arg)
+    elif n == "insert_column":
+        t.insert_column(xarg(op), arg)
+    elif n == "append_column":
+        t.append_column(arg)
+    else:
+        raise ValueError(n)
 
 
 RAW_MUTATIONS = {"rstrip", "optimize_width", "transpose", "set_span", "del_span", "live_row_rep", "live_cell_rep", "live_row_op", "extend_rows_odd"}
@@ -742,12 +786,18 @@ def apply_model(g: Grid, op, aux):
         g.set_column_cells(op["x"], op["cells"])
     elif n == "insert_column":
         g.insert_column(op["x"], op["col"])
+        if again:
+            g.insert_column(again["x"], op["col"])
     elif n == "append_column":
         g.append_column(op["col"])
+        if again:
+            g.append_column(op["col"])
     elif n == "delete_column":
         g.delete_column(op["x"])
     elif n == "set_column":
         g.set_column(op["x"], op["col"])
+        if again:
+            g.set_column(again["x"], op["col"])
     elif n == "clear":
         g.clear()
     elif n == "row_edit":
